@@ -11,7 +11,7 @@ git apply --check "$S/patch.diff" || { echo "patch does not apply"; exit 2; }
 git apply "$S/patch.diff"
 PYTHONPATH="$WT/src" /venv/bin/python "$S/demo.py" >/dev/null 2>&1; seeded_rc=$?
 suite=$(/verif/tools/suite.sh "$WT" | head -1)
-echo "== $P-$L: demo clean rc=$clean_rc seeded rc=$seeded_rc | $suite"
+echo "== $P-${STORE:-$L}: demo clean rc=$clean_rc seeded rc=$seeded_rc | $suite"
 caught=""
 for prop in "$P" "$@"; do
   out=$(VERIF_REPO="$WT" /verif/check "$prop" --tier "${TIER:-quick}" --no-evidence 2>&1); rc=$?
@@ -21,7 +21,7 @@ for prop in "$P" "$@"; do
   [ $rc = 1 ] && caught="$caught $prop"
 done
 git checkout -q -- src
-D="/verif/seeded/$P-$L"
+D="/verif/seeded/$P-${STORE:-$L}"
 mkdir -p "$D"
 cp "$S/patch.diff" "$D/patch.diff"; cp "$S/demo.py" "$D/demo.py"
 /venv/bin/python - "$S/meta.json" "$D/meta.json" "$clean_rc" "$seeded_rc" "$suite" "$caught" "${TIER:-quick}" <<'P'
